@@ -18,6 +18,19 @@ while waiting for the lock -> documented forceful close, or completes after the 
 closed the client from the moment the close is *started*, whatever its outcome; the generator then returns or yields
 again: no further generator may be started, the active one is closed exactly once, the socket ends closed.
 
+Per-connection fault "connection given up by the kernel" (high level harnesses, 1/6 of the non-calm connections): from a
+drawn instant of the connection's life (uniform between connect and the peer's end, on a 1/128 s grid: before any
+request, between requests, inside a frame, while the handler is suspended at ``yield None`` / ``yield <timeout>`` or busy)
+the server-side socket has the pending error ETIMEDOUT: it polls readable/writable and recv()/send() fail with the
+builtin ``TimeoutError`` (an OSError which is no ConnectionError).  That is a disconnection, never the handler's
+timeout: ``timeout-unjustified`` (a TimeoutError at ``yield None``, or before the yielded timeout expired = site
+``early``), ``sequence`` (what was observed is still a prefix, exactly once, in order), ``generator-close`` and
+``connection-closed`` apply; ``sequence-incomplete`` does not (bytes not yet pulled from the socket are lost with it).
+Every yield of the handler is inside ``try/except TimeoutError`` with the drawn reaction continue / return / re-raise, so
+"except TimeoutError: continue" around ``yield None`` and around ``yield <timeout>`` are both exercised; once a
+violation is flagged the handler re-raises instead (a handler resumed with a stored error for ever, without any
+checkpoint, would freeze the loop and turn the finding into a watchdog HARNESS-ERROR).
+
 Oracle clauses (violation keys ``C15/<harness>/<copy|buffered>/<clause>[/<site>]``):
   sequence            the values/parse errors observed inside the handler are a prefix of the frame-by-frame reference
                       decoding of the bytes the peer wrote (exactly once, in order, across generator restarts)
@@ -26,7 +39,8 @@ Oracle clauses (violation keys ``C15/<harness>/<copy|buffered>/<clause>[/<site>]
   request-after-close nothing is delivered after the handler closed the client
   timeout-unjustified TimeoutError was thrown although the completing byte of the awaited request had become visible on
                       the socket strictly before the deadline (exact ties accept both outcomes; a yielded timeout of 0
-                      is a single poll and only counted, see check_timeout)
+                      is a single poll and only counted, see check_timeout), or although the handler yielded None, or
+                      (site ``early``) before the yielded timeout had expired
   spurious-close      the active generator was closed although neither the peer disconnected nor the handler closed
   unexpected-exception something else than a parse error / TimeoutError / a justified transport error reached the handler
   generator-close     no generator is started after the handler closed the client and its generator ended; every generator instance that was started ran its ``finally`` exactly once by the time the
@@ -67,7 +81,9 @@ RULE = (
     "{whole, byte, fixed, random} and per-fragment delays, ended by FIN or RST; handler shape per connection: requests per handle() "
     "generator 1-4 (restart), yielded timeouts {None, 0, 1/1024, 2/64, 8/64, 32/64} s, processing sleeps, on_connection coroutine / async generator "
     "consuming 0-2 requests, aclose()/raise at request r, parse errors caught or re-raised, TimeoutError continue/return/re-raise; "
-    "selector hold/reorder/spurious readiness; rare injected recv() error. Harness tcp-high-busy: additionally the close happens while a second "
+    "selector hold/reorder/spurious readiness; rare injected recv() error (EHOSTUNREACH from the n-th call); high level: 1/6 of the connections are "
+    "given up by the kernel at a drawn instant of their life (pending socket error ETIMEDOUT: recv/send raise the builtin TimeoutError) = a disconnection, "
+    "never a TimeoutError for the handler, whose every yield (None or a timeout) sits in try/except TimeoutError: continue/return/re-raise. Harness tcp-high-busy: additionally the close happens while a second "
     "task of the handler is blocked in client.send_packet() towards a peer that stopped reading (send lock held, link room {0,1,16,64} bytes, "
     "packet 96-1024 bytes): close shape {move_on_after(d): aclose(), aclose_forcefully(client), timeout(d): aclose(), aclose()} x d in {0,1,2,8}/64 s x "
     "peer reads again {never, after 1,2,4,8 /64 s}, then return / yield again (close started => no new generator, generator closed once, socket closed). "
@@ -242,6 +258,15 @@ def _gen_conn(world: World, fam: int, k: int, level: str, calm: bool, busy: bool
         "recv_fail": (2 + world.choose("recv_fail_n", 6)) if not calm and world.chance("recv_fail", 1, 12) else 0,
         "filter": 0 if level == "high" else world.choose("filter", 2),  # low level: 1 = disconnect_error_filter=None
     }
+    # the kernel gives the connection up (keep-alive probes / retransmissions unanswered): from a drawn instant of the
+    # connection's life (before any request, between requests, inside a frame, while the handler waits at ``yield None`` /
+    # ``yield <timeout>`` or is busy) the server side's recv fails with ETIMEDOUT, i.e. the builtin TimeoutError, which is
+    # a disconnection and not a timeout of the handler.  High level only: at the low level the filter is the caller's.
+    plan["etimedout"] = None
+    if level == "high" and not calm and world.chance("etimedout", 1, 6):
+        span = max(t_end, t_conn) - t_conn + 3
+        plan["etimedout"] = t_conn + world.choose("etimedout_t", span) + (0.5 if world.chance("etimedout_half", 1, 2) else 0.0)
+        plan["recv_fail"] = 0
     if busy:
         # harness tcp-high-busy: the handler closes the client while another task of the handler is blocked in
         # client.send_packet() (the peer stopped reading), i.e. while the client's send lock is held (see Ctx.close_busy)
@@ -303,6 +328,8 @@ class Conn:
         self.handler_closed_at: int | None = None
         self.handler_end: tuple | None = None  # (cause, number of items observed then)
         self.rst_done = False
+        self.etimedout_done = False  # the server side's socket reports ETIMEDOUT from now on (connection given up)
+        self.waiting: str | None = None  # "none" / "timeout": the handler is suspended at ``yield None`` / ``yield <timeout>``
         self.resp_done: list[bytes] = []
         self.resp_pending: bytes | None = None
         self.gen_index = 0
@@ -332,7 +359,7 @@ class Conn:
 
     def peer_gone(self) -> bool:
         p = self.srv.rx_pipe if self.srv is not None else None
-        return self.rst_done or (p is not None and (p.fin_visible or p.rst))
+        return self.rst_done or self.etimedout_done or (p is not None and (p.fin_visible or p.rst))
 
 
 class Ctx:
@@ -394,8 +421,12 @@ class Ctx:
                 c0 = world.creep_iterations
                 if conn.handler_end is not None:
                     self.flag("request-after-close", f"{conn.label}: handler generator {kind!r} is asked for a request after the handler ended the connection {conn.handler_end}", conn=conn)
+                conn.waiting = "none" if T is None else "timeout"
                 try:
-                    req = yield T
+                    try:
+                        req = yield T
+                    finally:
+                        conn.waiting = None
                 except GeneratorExit:
                     rec.genexits += 1
                     world.log("genexit", conn.label, kind)
@@ -407,6 +438,11 @@ class Ctx:
                     world.log("tmo", conn.label, i)
                     world.probe("timeout_thrown")
                     self.check_timeout(conn, i, t0, T, world.creep_iterations - c0)
+                    if self.violation is not None:
+                        # the finding is recorded: a handler that went on ("except TimeoutError: continue", or a restart)
+                        # could be resumed with the same error for ever without any checkpoint and freeze the loop
+                        conn.handler_end = ("stop-after-violation", len(conn.items))
+                        raise
                     mode = conn.plan["tmo_mode"]
                     if mode == 0:
                         continue
@@ -568,7 +604,18 @@ class Ctx:
     def check_timeout(self, conn: Conn, i: int, t0: float, T: float | None, crept: int = 0) -> None:
         world = self.world
         if T is None:
-            self.flag("timeout-unjustified", f"{conn.label}: TimeoutError thrown into the handler although it yielded None", conn=conn)
+            self.flag("timeout-unjustified", f"{conn.label}: TimeoutError thrown into the handler at t={world.now} although it yielded None (server-side recv fails with ETIMEDOUT: {conn.etimedout_done})", conn=conn)
+            return
+        if T > 0 and world.now + 1e-6 < t0 + T:
+            # the yielded timeout has not expired yet: this TimeoutError is not the handler's timeout (e.g. an OSError of
+            # the transport with errno ETIMEDOUT thrown into the handler instead of being treated as a disconnection)
+            self.flag(
+                "timeout-unjustified",
+                f"{conn.label}: TimeoutError thrown into the handler at t={world.now} although the timeout {T} yielded at t={t0} had not expired "
+                f"(deadline >= {t0 + T}); server-side recv fails with ETIMEDOUT since: {conn.plan.get('etimedout') if conn.etimedout_done else None} (1/64 s)",
+                "early",
+                conn=conn,
+            )
             return
         if i >= len(conn.ends) or conn.srv is None:
             return
@@ -670,7 +717,29 @@ def _run(world: World, level: str, busy: bool = False) -> None:
         ctx.connecting = None
         conn.peer = Peer(world, psock)
         for t, data in conn.sc["writes"]:
-            world.at(t * G, lambda data=data, conn=conn: (None if conn.rst_done else conn.peer.write(data)))
+            world.at(t * G, lambda data=data, conn=conn: (None if conn.rst_done or conn.etimedout_done else conn.peer.write(data)))
+        if conn.plan["etimedout"] is not None:
+
+            def give_up(conn=conn) -> None:
+                srv = conn.srv
+                if srv is None or srv.sim_closed:
+                    return
+                conn.etimedout_done = True
+                world.log("etimedout", conn.label)
+                world.probe("etimedout_while_handler_" + ("busy" if conn.waiting is None else "waits_at_yield_" + conn.waiting))
+                vis = srv.rx_pipe.total_visible
+                if not conn.items:
+                    world.probe("etimedout_before_first_request")
+                if vis not in (0, *conn.ends) and vis < len(conn.sc["stream"]):
+                    world.probe("etimedout_inside_frame")
+                elif 0 < vis < len(conn.sc["stream"]):
+                    world.probe("etimedout_between_requests")
+                cf = CallFaults(world)  # counts the fault kind errno_etimedout when a recv() really fails
+                cf.fail_from["recv"] = (0, errno.ETIMEDOUT)
+                srv.fault_plan = cf
+                srv.so_error = errno.ETIMEDOUT  # pending socket error: the socket polls readable/writable, send fails too
+
+            world.at(max(world.now, conn.plan["etimedout"] * G), give_up)
         if conn.sc["end"] == "fin":
             world.at(conn.sc["t_end"] * G, conn.peer.fin)
         else:
@@ -778,7 +847,7 @@ def _final_checks(ctx: Ctx) -> None:
                 raise Violation("sequence", f"{desc}\n handler observed {c.items}\n reference        {ref}\n first difference at #{i}", key=ctx.key("sequence"))
         # 2. completeness when the peer's FIN ended the connection
         handler_ended = c.handler_end is not None or c.handler_closed_at is not None
-        if not handler_ended and c.sc["end"] == "fin" and len(c.items) != len(ref):
+        if not handler_ended and c.sc["end"] == "fin" and not c.etimedout_done and len(c.items) != len(ref):
             raise Violation("sequence-incomplete", f"{desc}\n the peer wrote {len(ref)} complete frames and then FIN; the handler did not end the connection but observed only {c.items}\n reference {ref}", key=ctx.key("sequence-incomplete"))
         if c.handler_end is not None and len(c.items) != c.handler_end[1]:
             raise Violation("request-after-close", f"{desc}\n handler ended the connection {c.handler_end} but observed {len(c.items)} requests", key=ctx.key("request-after-close"))
